@@ -172,18 +172,25 @@ def distance_matrix(kind, direction, X, y=None, mixing=None):
     return D, float(np.abs(d).max()), ok
 
 
+def span_basis(A, rtol=1e-10):
+    """Orthonormal basis of the column span of A (SVD, rank by relative threshold)."""
+    A = np.asarray(A, float)
+    if A.size == 0:
+        return np.zeros((A.shape[0], 0))
+    U, sv, _ = np.linalg.svd(A, full_matrices=False)
+    if sv.size == 0 or sv[0] <= 0:
+        return np.zeros((A.shape[0], 0))
+    return U[:, sv > rtol * sv[0]]
+
+
 def residual_after(X, idx, direction):
-    """X with the span of the selected columns (feature) / rows (sample) projected out,
-    by QR of the selected items of the ORIGINAL matrix."""
+    """X with the span of the selected columns (feature) / rows (sample) of the ORIGINAL
+    matrix projected out (orthonormal basis from an SVD of the selected items)."""
     X = np.asarray(X, float)
     if len(idx) == 0:
         return X.copy()
     if direction == "feature":
-        Q, R = np.linalg.qr(X[:, idx])
-        keep = np.abs(np.diag(R)) > 1e-10 * max(1.0, np.abs(R).max())
-        Q = Q[:, keep]
+        Q = span_basis(X[:, idx])
         return X - Q @ (Q.T @ X)
-    Q, R = np.linalg.qr(X[idx].T)
-    keep = np.abs(np.diag(R)) > 1e-10 * max(1.0, np.abs(R).max())
-    Q = Q[:, keep]
+    Q = span_basis(X[idx].T)
     return X - (X @ Q) @ Q.T
